@@ -362,6 +362,9 @@ type c11UnboundCase struct {
 	NS     map[string]string `json:"ns"`
 	Text   string            `json:"text"`
 	What   string            `json:"what"`
+	// names that ARE bound (under another expanded name than the one referenced)
+	BoundVars  []xref.Name `json:"bound_vars,omitempty"`
+	BoundFuncs []xref.Name `json:"bound_funcs,omitempty"`
 }
 
 // checkC11Unbound: an evaluated reference to an unbound prefix, variable or
@@ -380,13 +383,19 @@ func checkC11Unbound(c *c11UnboundCase) error {
 	for k, v := range c.NS {
 		set = append(set, xsel.WithNS(k, v))
 	}
+	for _, v := range c.BoundVars {
+		set = append(set, xsel.WithVariableNS(v.Space, v.Local, xsel.Number(7)))
+	}
+	for _, f := range c.BoundFuncs {
+		set = append(set, xsel.WithFunctionNS(f.Space, f.Local, func(xsel.Context, ...xsel.Result) (xsel.Result, error) { return xsel.Number(7), nil }))
+	}
 	r, err := safeExec(p.root, g, set...)
 	st.Eval(1)
 	if pe, ok := err.(*panicError); ok {
 		return fmt.Errorf("Exec(%q) panicked: %v", c.Text, pe.v)
 	}
 	if err == nil {
-		return fmt.Errorf("Exec(%q) returned %s although the %s is unbound and is evaluated", c.Text, describeResult(r, p.loc), c.What)
+		return fmt.Errorf("Exec(%q) returned %s although the %s is unbound and is evaluated (bindings %v, bound variables %v, bound functions %v)", c.Text, describeResult(r, p.loc), c.What, c.NS, c.BoundVars, c.BoundFuncs)
 	}
 	return nil
 }
@@ -575,6 +584,41 @@ func TestC11(t *testing.T) {
 		}
 		f := forms[rapid.IntRange(0, len(forms)-1).Draw(t, "form")]
 		c.Text, c.What = f.text, f.what
+		if rapid.Bool().Draw(t, "nearMiss") {
+			// a name that is bound or built in, referenced under ANOTHER expanded name
+			core := []string{"count(/*)", "true()", "false()", "position()", "last()", "not(1)", "concat('a','b')", "string(1)", "string-length('a')", "sum(/*)", "name()",
+				"local-name()", "namespace-uri()", "normalize-space(' a')", "boolean(1)", "number('1')", "floor(1.5)", "ceiling(1.5)", "round(1.5)", "lang('en')", "id('a')",
+				"starts-with('ab','a')", "contains('ab','a')", "substring('abc',2)", "substring-before('ab','b')", "substring-after('ab','a')", "translate('a','a','b')"}
+			var call string
+			switch rapid.IntRange(0, 5).Draw(t, "nearMissKind") {
+			case 0, 1, 2:
+				// a core function name behind a bound prefix: {urn:x}count is not count
+				call, c.What = "x:"+core[rapid.IntRange(0, len(core)-1).Draw(t, "core")], "function (a core function's local name in namespace urn:x)"
+				switch rapid.IntRange(0, 2).Draw(t, "others") {
+				case 0:
+					c.BoundFuncs = []xref.Name{{Space: "urn:other", Local: strings.SplitN(call[2:], "(", 2)[0]}}
+				case 1:
+					c.BoundFuncs = []xref.Name{{Local: "probe"}}
+				}
+			case 3:
+				c.BoundFuncs = []xref.Name{{Local: "probe"}}
+				call, c.What = "x:probe()", "function (probe is bound, {urn:x}probe is not)"
+			case 4:
+				c.BoundFuncs = []xref.Name{{Space: "urn:x", Local: "probe"}}
+				call, c.What = "probe()", "function ({urn:x}probe is bound, probe is not)"
+			default:
+				if rapid.Bool().Draw(t, "varInNS") {
+					c.BoundVars = []xref.Name{{Space: "urn:x", Local: "n"}}
+					call, c.What = "$n", "variable ({urn:x}n is bound, n is not)"
+				} else {
+					c.BoundVars = []xref.Name{{Local: "n"}}
+					call, c.What = "$x:n", "variable (n is bound, {urn:x}n is not)"
+				}
+			}
+			wraps := []string{"%s", "//*[%s]", "%s or true()", "string(%s)", "count(//*[%s or true()])", "1 + %s", "concat('a', %s)"}
+			c.Text = fmt.Sprintf(wraps[rapid.IntRange(0, len(wraps)-1).Draw(t, "wrap")], call)
+			f.text, f.what = c.Text, "near-miss "+strings.SplitN(c.What, " ", 2)[0]
+		}
 		st.Class("unbound " + f.what)
 		st.NonTrivial(f.text + fmt.Sprint(len(ev)))
 		st.Sample(f.text, map[string]any{"expr": f.text, "unbound": f.what})
